@@ -563,6 +563,7 @@ type desc struct {
 	Seed    uint64 `json:"seed"`
 	Backend string `json:"backend"`
 	Combo   int    `json:"combo"`
+	Kind    string `json:"kind,omitempty"` // "" = interleaved histories, "concurrent" = gated two-store case
 }
 
 func scenario(w *rec.Writer, d desc) {
@@ -656,6 +657,84 @@ func scenario(w *rec.Writer, d desc) {
 	w.Stat("scenario_"+d.Backend+"_"+comboNames[d.Combo], 1)
 }
 
+// concurrentIsolation: store A's latest-model lookup is held in flight (gated datastore) while a
+// model-less Check for store B arrives.  B's answer must be the answer B gets on a server of its
+// own.  Same names everywhere; A's and B's latest models answer the Check differently.
+func concurrentIsolation(w *rec.Writer, d desc) {
+	ctx := sh.Ctx
+	type answer struct {
+		cls     int
+		allowed bool
+	}
+	setup := func(srv *server.Server, variant int) string {
+		res, err := srv.CreateStore(ctx, &openfgav1.CreateStoreRequest{Name: "shared-name"})
+		if err != nil {
+			panic(err)
+		}
+		vm := variantModels[variant]
+		if _, err := srv.WriteAuthorizationModel(ctx, &openfgav1.WriteAuthorizationModelRequest{StoreId: res.GetId(), SchemaVersion: "1.1", TypeDefinitions: vm.GetTypeDefinitions()}); err != nil {
+			panic(err)
+		}
+		if _, err := srv.Write(ctx, &openfgav1.WriteRequest{StoreId: res.GetId(), Writes: &openfgav1.WriteRequestWrites{
+			TupleKeys: []*openfgav1.TupleKey{{Object: "document:1", Relation: "viewer", User: "user:anne"}}}}); err != nil {
+			panic(err)
+		}
+		return res.GetId()
+	}
+	check := func(srv *server.Server, store string) answer {
+		res, err := srv.Check(ctx, &openfgav1.CheckRequest{StoreId: store,
+			TupleKey: &openfgav1.CheckRequestTupleKey{Object: "document:1", Relation: "b0", User: "user:anne"}})
+		return answer{sh.ErrClass(err), res.GetAllowed()}
+	}
+	// (a) both stores on one server, A's lookup in flight
+	be, err := sh.Open(d.Backend, root)
+	if err != nil {
+		panic(err)
+	}
+	gate := sh.NewGate(be.DS)
+	be.Disown()
+	srv := server.MustNewServerWithOpts(append([]server.OpenFGAServiceV1Option{server.WithDatastore(gate)}, comboOpts(d.Combo)...)...)
+	a := setup(srv, 0) // b0 false
+	b := setup(srv, 1) // b0 true
+	gate.Arm(a)
+	ac, bc := make(chan answer, 1), make(chan answer, 1)
+	go func() { ac <- check(srv, a) }()
+	<-gate.Entered()
+	go func() { bc <- check(srv, b) }()
+	var together answer
+	doneBefore := false
+	select {
+	case together = <-bc:
+		doneBefore = true
+	case <-time.After(1500 * time.Millisecond):
+	}
+	gate.Release()
+	ansA := <-ac
+	if !doneBefore {
+		together = <-bc
+	}
+	srv.Close()
+	be.Close()
+	// (b) store B alone
+	wd := newWorld(d.Backend, d.Combo)
+	alone := check(wd.srv, setup(wd.srv, 1))
+	wd.close()
+	if together != alone {
+		w.PropFail("cross-store: a model-less Check on one store is answered differently while another store's latest-model lookup is in flight",
+			map[string]any{"desc": d, "together": fmt.Sprintf("%d %v", together.cls, together.allowed), "alone": fmt.Sprintf("%d %v", alone.cls, alone.allowed)})
+	}
+	if ansA.cls != 0 || ansA.allowed {
+		w.PropFail("cross-store: the store whose lookup was held is not answered from its own model", map[string]any{"desc": d})
+	}
+	w.Case(d, rec.I(9), rec.I(bk(d)), rec.I(d.Combo), rec.Bool(doneBefore), rec.I(together.cls), rec.Bool(together.allowed), rec.I(alone.cls), rec.Bool(alone.allowed))
+	if doneBefore {
+		w.Stat("concurrent_other_store_not_blocked", 1)
+	} else {
+		w.Stat("concurrent_other_store_waited_for_release", 1)
+	}
+	w.Stat("scenario_concurrent_"+d.Backend+"_"+comboNames[d.Combo], 1)
+}
+
 func bk(d desc) int {
 	if d.Backend == "sqlite" {
 		return 1
@@ -688,11 +767,18 @@ func main() {
 				}
 				d = wrap.Desc
 			}
-			scenario(w, d)
+			if d.Kind == "concurrent" {
+				concurrentIsolation(w, d)
+			} else {
+				scenario(w, d)
+			}
 		}
 		return
 	}
 	r := rec.NewRand(o.Seed)
+	for i, bkd := range []string{"memory", "sqlite", "sqlite", "memory"} {
+		concurrentIsolation(w, desc{Seed: r.Uint64(), Backend: bkd, Combo: i % 2, Kind: "concurrent"})
+	}
 	for i := 0; i < o.N; i++ {
 		d := desc{Seed: r.Uint64(), Backend: "memory", Combo: r.Intn(2)}
 		if i%3 == 2 || (o.Tier == "thorough" && i%2 == 1) {
